@@ -552,6 +552,40 @@ def tla_conformance(res, nports):
                 wd.close()
 
 
+def bad_port(res):
+    """start fails on a later port for a reason other than 'address in use' (a port number no socket accepts):
+    the error is raised - whatever its class - and nothing is left listening."""
+    set_zone("UTC")
+    good = port_block().ports[:2]
+    for bad in (70000, 65536, -1, 1 << 20):
+        for ports in ([good[0], bad], [good[0], good[1], bad], [bad, good[0]]):
+            case = {"part": "badport", "ports": ["good" if p in good else p for p in ports]}
+            with Clock(1_700_000_000.0), Capture():
+                bw = BridgeWorld(ports=ports)
+                try:
+                    out = bw.run(bw.bridge.start())
+                    bw.settle()
+                    res.case(("badport", tuple(case["ports"])))
+                    res.traces += 1
+                    if out[0] != "exc":
+                        res.violation("failing-start-does-not-raise", case, f"start on ports {case['ports']} -> {out[0]} {out[1]!r}")
+                        continue
+                    if bw.bridge.is_running is not False:
+                        res.violation("is-running:stuck-true", case, f"start on ports {case['ports']} raised {out[1]!r} but is_running={bw.bridge.is_running}")
+                    for p in ports:
+                        if p in good and not can_bind(p):
+                            res.violation("port-left-bound", case, f"start on ports {case['ports']} raised {type(out[1]).__name__} but port {'#%d' % ports.index(p)} stayed bound")
+                    n0 = len(bw.calls)
+                    for p in ports:
+                        if p in good:
+                            bw.send(p, B.encode("V4", name="late"))
+                    bw.settle()
+                    if len(bw.calls) != n0:
+                        res.violation("callback-after-stop", case, f"start on ports {case['ports']} failed, yet a broadcast was delivered afterwards")
+                finally:
+                    bw.close()
+
+
 def plan(tier):
     return [(1, 4 if tier == "quick" else 6), (2, 4 if tier == "quick" else 5)] + ([(3, 4)] if tier == "thorough" else [(3, 3)])
 
@@ -570,6 +604,7 @@ def jobs(tier, seed):
     for nports in (1, 2, 3):
         js.append({"part": "tla", "nports": nports})
     js.append({"part": "inflight", "tier": tier})
+    js.append({"part": "badport"})
     js.append({"part": "twin", "depth": 4 if tier == "quick" else 6})
     return js
 
@@ -579,6 +614,10 @@ def run_job(job):
     if job["part"] == "bfs":
         closed, n, d = bfs(job["nports"], res)
         res.add("bfs", (job["nports"], closed, n, d))
+        return res
+    if job["part"] == "badport":
+        bad_port(res)
+        res.sample({"part": "badport", "ports": ["good", 70000], "expect": "start raises, the good port is free again"})
         return res
     if job["part"] == "tla":
         tla_conformance(res, job["nports"])
@@ -629,6 +668,9 @@ def run_job(job):
 
 def replay(case):
     res = Res()
+    if case.get("part") == "badport":
+        bad_port(res)
+        return [v for v in res.violations if v["case"] == case] or res.violations
     if case.get("part") == "tla":
         r2 = Res()
         tla_conformance(r2, case["nports"])
